@@ -20,6 +20,10 @@ pub struct Violation {
     pub oracle: String,
     pub event: usize,
     pub detail: String,
+    /// other oracle ids the same event violates (a reachable value lost because a barrier path,
+    /// an upgrade, a resurrection or a stash did not protect it is also C06's, C05's, C07's, C14's)
+    #[serde(default)]
+    pub aliases: Vec<String>,
 }
 
 pub enum ArenaBox {
@@ -97,6 +101,11 @@ pub struct ArenaRt {
     pub faulted_cycle: bool,
     /// largest magnitude ever passed to adjust_debt: the rounding scale of the hidden debits
     pub debt_scale: f64,
+    /// targets stored after a successful upgrade since the arena was last observed Sleeping
+    pub up_stored: BTreeSet<Id>,
+    /// children adopted while marking was in progress, in the running cycle / the one before
+    pub adopted_cur: BTreeSet<Id>,
+    pub adopted_prev: BTreeSet<Id>,
 }
 
 impl ArenaRt {
@@ -125,6 +134,9 @@ impl Default for ArenaRt {
             dead_set_base: BTreeSet::new(),
             faulted_cycle: false,
             debt_scale: 0.0,
+            up_stored: BTreeSet::new(),
+            adopted_cur: BTreeSet::new(),
+            adopted_prev: BTreeSet::new(),
         }
     }
 }
@@ -311,11 +323,46 @@ impl World {
 
     pub fn violate(&mut self, oracle: &str, detail: String) {
         if self.viol.is_none() {
-            self.viol = Some(Violation { oracle: oracle.to_string(), event: self.ev_index, detail });
+            self.viol = Some(Violation { oracle: oracle.to_string(), event: self.ev_index, detail, aliases: vec![] });
         }
     }
     pub fn ok(&self) -> bool {
         self.viol.is_none()
+    }
+
+    /// A strongly reachable value was destructed or released: record it, together with the more
+    /// specific promises it breaks (why the value was reachable).
+    pub fn violate_lost(&mut self, oracle: &str, oid: Id, detail: String) {
+        if self.viol.is_some() {
+            return;
+        }
+        let mut aliases = vec![];
+        if let Some(o) = self.sh.objs.get(&oid) {
+            let a = o.arena;
+            if self.sh.arena_alive(a) {
+                let ar = self.sh.arena(a).clone();
+                // reachable only because it was resurrected this cycle?
+                let mut without_res = self.sh.clone_arena_without_resurrected(a);
+                if !without_res.reach(a).contains(&oid) {
+                    aliases.push("C07.resurrected-lost".to_string());
+                }
+                // reachable only through a stash slot?
+                without_res = self.sh.clone_arena_without_stash(a);
+                if !without_res.reach(a).contains(&oid) {
+                    aliases.push("C14.stashed-lost".to_string());
+                }
+                let _ = ar;
+                let rt = &self.rt[a as usize];
+                let in_closure = |set: &BTreeSet<Id>| set.iter().any(|r| self.sh.closure(*r).contains(&oid));
+                if in_closure(&rt.up_stored) {
+                    aliases.push("C05.stored-lost".to_string());
+                }
+                if in_closure(&rt.adopted_cur) || in_closure(&rt.adopted_prev) {
+                    aliases.push("C06.adopted-lost".to_string());
+                }
+            }
+        }
+        self.viol = Some(Violation { oracle: oracle.to_string(), event: self.ev_index, detail, aliases });
     }
 
     pub fn note(&mut self, line: impl FnOnce() -> String) {
@@ -429,7 +476,7 @@ impl World {
                 seam::CTX_CALLBACK | seam::CTX_BUILDER => self.violate("C03.drop-in-callback", format!("value {oid} destructed while a callback of arena {oarena} was running")),
                 seam::CTX_COLLECT => {
                     if protect.contains(&oid) {
-                        self.violate("C01.drop-reachable", format!("value {oid} destructed while strongly reachable"));
+                        self.violate_lost("C01.drop-reachable", oid, format!("value {oid} destructed while strongly reachable"));
                     }
                 }
                 seam::CTX_ARENA_DROP => {}
@@ -462,7 +509,7 @@ impl World {
                         seam::CTX_CALLBACK | seam::CTX_BUILDER => self.violate("C03.free-in-callback", format!("Gc block of {oid} released while a callback of arena {} was running", o.arena)),
                         seam::CTX_COLLECT => {
                             if protect.contains(&oid) {
-                                self.violate("C01.free-reachable", format!("Gc block of {oid} released while strongly reachable"));
+                                self.violate_lost("C01.free-reachable", oid, format!("Gc block of {oid} released while strongly reachable"));
                             }
                             if weak_protect.contains(&oid) {
                                 self.violate("C05.shell-released", format!("block of {oid} released while a reachable weak pointer still refers to it"));
